@@ -132,6 +132,11 @@ def extract():
                 order.append("check-seq")
             elif f == "serializer.loads":
                 order.append("loads")
+        if isinstance(n, ast.If) and isinstance(n.test, ast.Compare) and _attr_chain(n.test.left) == "msg.serializer_id" \
+                and any(isinstance(x, ast.Raise) for x in ast.walk(n)):
+            order.append("serializer-check")
+        if isinstance(n, ast.If) and _attr_chain(n.test) == "self._pyroRawWireResponse" and n.body and isinstance(n.body[0], ast.Return):
+            order.append("raw-return")
         if isinstance(n, ast.If) and isinstance(n.test, ast.BinOp) and _attr_chain(n.test.right).endswith("FLAGS_ONEWAY") \
                 and n.body and isinstance(n.body[0], ast.Return) and isinstance(n.body[0].value, ast.Constant) and n.body[0].value.value is None:
             order.append("oneway-return-none")
@@ -190,6 +195,24 @@ def extract():
                     direct.append("%s.%s" % (c.name, f.name))
                 if ch == "_RemoteMethod" and c.name == "Proxy":
                     via_remote.append("%s.%s" % (c.name, f.name))
+    # the retry budget handed to _RemoteMethod is the proxy's own setting
+    rm_args = [[(_attr_chain(a) or type(a).__name__) for a in call.args]
+               for call in _calls_in(_fn(proxy, "__getattr__")) if _attr_chain(call.func) == "_RemoteMethod"]
+    if len(rm_args) != 1:
+        raise ValueError("Proxy.__getattr__: expected one _RemoteMethod(...) call")
+    # BatchProxy.__call__: top-level statements (the recorded calls are cleared unconditionally after the submit)
+    bshape = []
+    for st in _fn(_cls(ctree, "BatchProxy"), "__call__").body:
+        if isinstance(st, ast.Assign) and _attr_chain(st.targets[0]) == "self.__calls" and isinstance(st.value, ast.List) and not st.value.elts:
+            bshape.append("clear-calls")
+        elif isinstance(st, ast.Assign) and any(_attr_chain(c.func).endswith("_pyroInvokeBatch") for c in _calls_in(st)):
+            bshape.append("submit")
+        elif isinstance(st, ast.If):
+            bshape.append("if:" + ",".join(sorted({type(x).__name__ for x in st.body})))
+        elif isinstance(st, ast.Expr) and isinstance(st.value, ast.Call):
+            bshape.append("call:" + _attr_chain(st.value.func).split(".")[-1])
+        else:
+            bshape.append(type(st).__name__)
     nxt = _fn(_cls(ctree, "_StreamResultIterator"), "__next__")
     precheck = any(isinstance(n, ast.If) and isinstance(n.test, ast.Compare) and _attr_chain(n.test.left) == "self.proxy._pyroConnection"
                    and isinstance(n.test.ops[0], ast.Is) and any(isinstance(r, ast.Raise) and "ConnectionClosedError" in ast.dump(r) for r in n.body)
@@ -275,6 +298,10 @@ def retryReraise : List String := {_lean_strs(reraise)}
 /-- functions of client.py that call `_pyroInvoke` directly (sorted), and Proxy methods that build a _RemoteMethod -/
 def directInvokers : List String := {_lean_strs(sorted(set(direct)))}
 def remoteMethodBuilders : List String := {_lean_strs(sorted(set(via_remote)))}
+/-- arguments of the `_RemoteMethod(...)` call in Proxy.__getattr__ (the last one is the retry budget) -/
+def remoteMethodArgs : List String := {_lean_strs(rm_args[0])}
+/-- top-level statements of BatchProxy.__call__, in order -/
+def batchCallShape : List String := {_lean_strs(bshape)}
 /-- Proxy methods that fetch the metadata first; _StreamResultIterator.__next__ refuses when there is no connection -/
 def metaLookup : List String := {_lean_strs(meta_lookup)}
 def streamPrecheck : Bool := {b(precheck)}
@@ -314,6 +341,12 @@ def expand(case):
     for e, n in case.get("script_rle", []):
         script += [tuple(e)] * n
     return case["retries"], case["seq0"], calls, script
+
+
+def options(case):
+    """how the proxy of this history is set up (the model does not depend on either: the proxy's OWN retry setting
+    governs, and wire-level response mode only changes what is handed back after all checks)"""
+    return {"gretries": case.get("gretries"), "raw": bool(case.get("raw"))}
 
 
 def model_line(retries, seq0, calls, script):
@@ -382,7 +415,51 @@ def random_case(rng, big=False):
     if rng.random() < 0.05:
         m = rng.randint(0, max(1, n))
     script = [rand_event(rng, p_ok) for _ in range(m)]
-    return {"retries": retries, "seq0": seq0, "calls": calls, "script": script}
+    case = {"retries": retries, "seq0": seq0, "calls": calls, "script": script}
+    if rng.random() < 0.4:
+        case["gretries"] = rng.choice([0, 1, 2])          # config.MAX_RETRIES differs from the proxy's own setting
+    if rng.random() < 0.25:
+        case["raw"] = True                                 # wire-level response mode
+    return case
+
+
+def setup_cases():
+    """histories aimed at how the proxy is set up and used: its own retry setting against a different global one,
+    wire-level response mode under reply-level faults, one BatchProxy object re-used across submits"""
+    out = []
+    ok = ("ok",)
+    tok = 500000
+    # proxy retries r, global g != r, a fault after the server processed the request
+    for r in (0, 1, 2):
+        for g in (0, 1, 2):
+            if g == r:
+                continue
+            for kind in "nxso":
+                for ev in [("lo",), ("la", 0), ("la", 300), ("ra",), ("cu", 500), ("rb",)]:
+                    for pre in (0, 1):
+                        calls = [("n", tok + 1)] * pre + [(kind, tok + 2), ("n", tok + 3)]
+                        script = [ok] * (1 + pre) + [ev, ok, ev, ok, ev] + [ok] * 8
+                        tok += 5
+                        out.append({"retries": r, "gretries": g, "seq0": 0, "calls": calls, "script": script})
+    # wire-level response mode under reply-level faults
+    for r in (0, 1):
+        for kind in "nxsgtfb":
+            for ev in [("du",), ("st", 0), ("st", 1), ("sq", 0), ("sq", 65534), ("sh",), ("la", 0), ("in",)]:
+                calls = [("n", tok + 1), ("n", tok + 2), (kind, tok + 3), ("n", tok + 4), (kind, tok + 5), ("n", tok + 6)]
+                for where in (1, 2, 3):
+                    script = [ok] * where + [ev] + [ok] * 12
+                    out.append({"retries": r, "raw": True, "seq0": 65533 if tok % 2 else 0, "calls": calls, "script": script})
+                tok += 10
+    # one BatchProxy object across submits
+    for r in (0, 1):
+        for pat in ["Bb", "BBb", "bBb", "BnBb", "BobBn", "bBBbn", "BxBgb", "BbBbBb"]:
+            for ev in [ok, ("lo",), ("rb",), ("du",)]:
+                calls = [(k, tok + 1 + i) for i, k in enumerate(pat)]
+                for where in (1, len(pat)):
+                    script = [ok] * where + [ev] + [ok] * 20
+                    out.append({"retries": r, "seq0": 0, "calls": calls, "script": script})
+                tok += 10
+    return out
 
 
 def corpus_cases():
@@ -500,6 +577,10 @@ def check_history(ctx, case, recs, net, retries):
                 fail("exec-bound", "call %d (%s%d) failed after its method ran %d times (allowed: %d)" % (idx, kind, tok, rec["delta"], budget), idx)
         if rec["delta"] > budget and tag in ("returned", "raised"):
             fail("exec-bound", "call %d (%s%d): method ran %d times (allowed: %d)" % (idx, kind, tok, rec["delta"], budget), idx)
+        # (4) no call runs another call's method (again)
+        if rec["foreign_execs"] != 0:
+            fail("other-call-executed", "during call %d (%s%d) the server ran %d method execution(s) that belong to other calls"
+                 % (idx, kind, tok, rec["foreign_execs"]), idx)
         # (5) recovery: after a failed call, the next call over a healthy transport is served correctly
         if prev is not None and prev["tag"] in COMM_FAIL_TAGS and kind != "f" and rec["events"] and all(e[0] == "ok" for e in rec["events"]):
             good = (tag in ("returned", "raised")) and (oneway or (inv and inv[-1]["call"] == idx))
@@ -513,7 +594,7 @@ def run_cases(ctx, rig, cases, do_model, label):
     lines, reals, kept = [], [], []
     for case in cases:
         retries, seq0, calls, script = expand(case)
-        recs, net = rig.history(retries, seq0, calls, script)
+        recs, net = rig.history(retries, seq0, calls, script, **options(case))
         ctx.evaluations += 1
         real = ";".join(canon(r) for r in recs)
         check_history(ctx, case, recs, net, retries)
@@ -524,14 +605,18 @@ def run_cases(ctx, rig, cases, do_model, label):
         for r in recs:
             ctx.count("call:%s:%s" % (r["kind"], r["tag"].split(":")[0] if not r["tag"].startswith("fail") else r["tag"]))
         ctx.count("retries:%d" % retries)
+        opt = options(case)
+        ctx.count("global-retries:%s" % ("same" if opt["gretries"] in (None, retries) else "differs"))
+        ctx.count("raw-wire-mode:%s" % opt["raw"])
         ctx.count("histories:" + label)
         if any(f != "ok" for f in faults) and any(r["tag"] in ("returned", "raised") for r in recs):
             cls = "0" if seq0 == 0 else ("w" if seq0 >= 65500 else "r")
-            key = (retries, cls, "".join(k for k, _ in calls[:len(recs)]), ",".join(ev_str(e) for r in recs for e in r["events"]))
-            if len(key[2]) <= 64:
+            key = (retries, opt["gretries"], opt["raw"], cls, "".join(k for k, _ in calls[:len(recs)]),
+                   ",".join(ev_str(e) for r in recs for e in r["events"]))
+            if len(key[4]) <= 64:
                 ctx.nontriv(key)
             else:
-                ctx.nontriv((retries, cls, len(calls), hash(key[3]) & 0xffffffff))
+                ctx.nontriv(key[:4] + (len(calls), common.hash_str(key[5])))
         if len(calls) <= 5 and any(f not in ("ok",) for f in faults):
             ctx.sample({"line": model_line(retries, seq0, calls, script)[:300], "real": real[:300]})
         if do_model:
@@ -567,6 +652,7 @@ def correspondence(ctx):
         quick_corpus = [c for c in corpus if ctx.tier == "thorough" or not c.get("thorough_only")]
         run_cases(ctx, rig, quick_corpus, True, "corpus")
         run_cases(ctx, rig, systematic_cases(), True, "systematic")
+        run_cases(ctx, rig, setup_cases(), True, "setup")
         rng = ctx.sub_rng("corr")
         run_cases(ctx, rig, [random_case(rng) for _ in range(ctx.n(1500, 40000))], True, "random")
         if ctx.tier == "thorough":
@@ -596,7 +682,8 @@ def replay(ctx, case):
 
     def go(rig):
         retries, seq0, calls, script = expand(hist)
-        recs, net = rig.history(retries, seq0, calls, script)
+        recs, net = rig.history(retries, seq0, calls, script, **options(hist))
+        print("proxy._pyroMaxRetries=%d config.MAX_RETRIES=%r raw-wire-mode=%r" % (retries, hist.get("gretries", retries), bool(hist.get("raw"))))
         show = recs if len(recs) <= 60 else recs[:5] + recs[-5:]
         for r in show:
             print("call %d %s%d events=%s -> %s value=%r exc=%r ; method ran %d time(s); proxy %s seq=%d"
